@@ -12,6 +12,7 @@ use std::sync::atomic::{AtomicUsize, Ordering};
 
 mod cipher;
 mod codec;
+mod limiter;
 mod mojang;
 mod conn;
 mod packets;
@@ -75,6 +76,8 @@ fn main() {
         "cipher" => cipher::schedules(seed),
         "mojang" => mojang::request(seed),
         "mchash" => mojang::mchash(seed),
+        "limiter_big" => limiter::big_limit(seed),
+        "limiter" => limiter::sweep(seed),
         "cookie_unparseable" => conn::cookie_unparseable(seed),
         "malformed" => packets::malformed(seed),
         other => {
